@@ -22,10 +22,10 @@ ASSUMPTIONS = ['simulated transport and OS layer (DESIGN.md 2.1) are faithful; m
                'an XML-RPC failure must end the episode of the peer within two local ticks (notification transit)']
 FLOORS = {'quick': {'completeness_evaluations': 3000, 'silent_peers_at_timer': 40, 'accuracy_evaluations': 80,
                     'invalidations': 100, 'lost_processes_checked': 40, 'peer_state_changes': 3000,
-                    'ticks_delivered': 10000},
+                    'ticks_delivered': 10000, 'quick_restarts_seen': 100},
           'thorough': {'completeness_evaluations': 60000, 'silent_peers_at_timer': 1200, 'accuracy_evaluations': 1600,
                        'invalidations': 2000, 'lost_processes_checked': 800, 'peer_state_changes': 60000,
-                       'ticks_delivered': 200000}}
+                       'ticks_delivered': 200000, 'quick_restarts_seen': 1500}}
 COUNT = {'quick': 560, 'thorough': 9000}
 BUDGET_S = {'quick': 55, 'thorough': 540}
 
